@@ -6,5 +6,5 @@ CONSTANTS
   NMax = @NMAX@
   Salt = @SALT@
   Palette = @PALETTE@
-INVARIANTS EmitInv
+INVARIANTS EmitInv GridOK
 CHECK_DEADLOCK FALSE
